@@ -4,8 +4,8 @@
 
 #[cfg(feature = "cloud")]
 pub use super::cloud::verif::{
-    cloud_server, draw_pending, init_store, set_next_draw, Fault, Gate, MemObject, MemService,
-    MemStore, SharedStore,
+    cloud_server, cloud_server_new, draw_pending, empty_store, init_store, set_next_draw, Fault,
+    Gate, MemObject, MemService, MemStore, SharedStore,
 };
 
 #[cfg(feature = "encryption")]
